@@ -20,16 +20,28 @@ import (
 func init() { c18SchedOnly = c18MapOrders }
 
 type c18MapCase struct {
-	Pool    int // 0: c18Pool[:9], 1: c18Pool2
+	Pool    int // 0: c18Pool[:9], 1: c18Pool2, 2: c18Pool3
 	Dupe    int
 	Choices []int
 }
 
+// c18Pool3: ONE benchmark feeds the series point, measured by an experiment with a baseline and by a later one
+// without: nothing else can settle the point's baseline hash.
+var c18Pool3 = []c18Res{
+	{"B", t1, "baseline", "h2", s2, map[string]float64{"u1": 20}},
+	{"B", t1, "experiment", "h2", s2, map[string]float64{"u1": 21}},
+	{"B", t2, "experiment", "h2", s2, map[string]float64{"u1": 22}},
+	{"A", t1, "experiment", "h1", s1, map[string]float64{"u1": 11}},
+}
+
 func c18MapPool(i int) []c18Res {
-	if i == 0 {
+	switch i {
+	case 0:
 		return c18Pool[:9]
+	case 1:
+		return c18Pool2
 	}
-	return c18Pool2
+	return c18Pool3
 }
 
 func c18MapBody(pool []c18Res, dupe int) (canon, raw string) {
@@ -68,7 +80,7 @@ func c18MapOrders(c *mc.Check) {
 		}
 		return ""
 	}
-	f := c.Family("map-iteration-orders", "benchseries rewritten mechanically so that every range over a map asks the explorer for the order of the keys: two pools (9 results incl. a later experiment without a baseline; 10 results with multi-sample cells, a point measured twice and two hashes sharing a baseline) × {replace, combine}: one Builder filled in a fixed order and asked twice; deviation-bounded depth-first search over ALL orders in which the maps (tables, trials, tests per trial, residues, key sets) may be iterated, a deviation being any pick other than the first remaining key. Every execution's answers (samples, dates, hash pairs, bootstrap summaries) must equal the default order's, and match the set-semantics reference; non-trivial = executions with ≥1 deviation", replay)
+	f := c.Family("map-iteration-orders", "benchseries rewritten mechanically so that every range over a map asks the explorer for the order of the keys: three pools (9 results incl. a later experiment without a baseline; 10 results with multi-sample cells, a point measured twice and two hashes sharing a baseline; 4 results in which a single benchmark feeds a point measured with and, later, without a baseline) × {replace, combine}: one Builder filled in a fixed order and asked twice; deviation-bounded depth-first search over ALL orders in which the maps (tables, trials, tests per trial, residues, key sets) may be iterated, a deviation being any pick other than the first remaining key. Every execution's answers (samples, dates, hash pairs, bootstrap summaries) must equal the default order's, and match the set-semantics reference; non-trivial = executions with ≥1 deviation", replay)
 	if c.Replaying() {
 		return
 	}
@@ -81,7 +93,7 @@ func c18MapOrders(c *mc.Check) {
 	f.Bounds["deviation_bound"] = bound
 	f.Bounds["shard"] = fmt.Sprintf("%d/%d", shard, nshards)
 	maxPoints := 0
-	for pi := 0; pi < 2; pi++ {
+	for pi := 0; pi < 3; pi++ {
 		pool := c18MapPool(pi)
 		for _, dupe := range []int{DUPE_REPLACE, DUPE_COMBINE} {
 			want := refSeries(pool, dupe)
